@@ -210,6 +210,18 @@ func (p *StateProcessor) ApplyMessageEntry(msg Message, statedb *state.StateDB,
 		coinbase = *author
 	}
 	msgCtx := NewMsgContext(msg, statedb, bc, header, coinbase, gp, cfg, recorder)
+	// A message that is refused with an error gets no receipt and is not part of the block:
+	// it must leave neither the state nor the block gas pool changed.
+	snapshot, gasBefore := statedb.Snapshot(), gp.Gas()
+	ret, gasUsed, failed, err := p.applyMessage(msgCtx, msg)
+	if err != nil {
+		statedb.RevertToSnapshot(snapshot)
+		*gp = GasPool(gasBefore)
+	}
+	return ret, gasUsed, failed, err
+}
+
+func (p *StateProcessor) applyMessage(msgCtx *MessageContext, msg Message) ([]byte, uint64, bool, error) {
 	// First, do pre check, checks the nonce and buy the supplied gas
 	if err := msgCtx.preCheck(); err != nil {
 		return nil, 0, false, err
